@@ -46,13 +46,7 @@ func c16SessAccounts(text string, counts map[string]int) {
 }
 
 func verifC16Session(steps int) {
-	w, ws := c01RunSession(steps)
-	settled := zzverif.Choice("settle", 2) == 1
-	if settled {
-		for i := 0; i < 2; i++ {
-			w.reanalyse(i)
-		}
-	}
+	w, ws, settled := c01RunSession(steps)
 	from := 0
 	if ws && w.open[1] && zzverif.Choice("from", 2) == 1 {
 		from = 1
